@@ -152,20 +152,21 @@ func elsePresenceAsPrinted(p *Prog, rule string) *RuleResult {
 			if c, isC := bo.Y.(*ssa.Const); !isC || c.Value != nil {
 				return
 			}
-			// bo.X: load of <SIf>.NoOrNil.Data
-			ld, ok := bo.X.(*ssa.UnOp)
-			if !ok {
-				return
-			}
-			fa, ok := ld.X.(*ssa.FieldAddr)
-			if !ok || fieldAddrName(fa) != "Data" {
-				return
-			}
-			fa2, ok := fa.X.(*ssa.FieldAddr)
-			if ok && fieldAddrName(fa2) == "NoOrNil" && namedTypeName(fa2.X.Type()) == "js_ast.SIf" {
-				tests = true
-				pos = bo
-			}
+			// bo.X: (a phi of) a load of <SIf>.NoOrNil.Data
+			operandSlice(bo.X, func(v ssa.Value) bool {
+				if _, isCall := v.(*ssa.Call); isCall {
+					return false
+				}
+				fa, ok := v.(*ssa.FieldAddr)
+				if !ok || fieldAddrName(fa) != "Data" {
+					return true
+				}
+				if fa2, ok := fa.X.(*ssa.FieldAddr); ok && fieldAddrName(fa2) == "NoOrNil" && namedTypeName(fa2.X.Type()) == "js_ast.SIf" {
+					tests = true
+					pos = bo
+				}
+				return true
+			})
 		})
 		if !tests {
 			continue
